@@ -59,7 +59,7 @@ _WR_TEXT = {
     "C06": "sequential fold: the atomic and the asynchronous handler receive the same bag of (key, value, cause) in every call, operation-caused events are exactly the predicted ones (incl. Expiration for writes over / removals of expired-unswept entries), all 12 layouts; concurrent: values written = values present + values reported; each removed value reaches OnAtomicDeletion and OnDeletion exactly once with the same cause; per key the atomic handler sees removals in installation order (WriteReplay.tla: Once/NeverTwice; real cache: WRAudit.tla)",
 }
 for _p in ("C04", "C05", "C06"):
-    CHECKS[_p] = wrcheck.run if _p != "C06" else seqcheck.run
+    CHECKS[_p] = seqcheck.run      # sequential fold + the concurrent audit (wrcheck, merged by seqcheck.finish)
     META[_p] = {
         "engine": "write-replay",
         "text": _WR_TEXT[_p],
